@@ -192,4 +192,65 @@ Section Insert.
       + apply nth_In. lia.
   Qed.
 
+  Lemma max_vals_ge3 : forall n : node, 3 <= max_vals L I n.
+  Proof. intros n. unfold max_vals. destruct (is_leaf n); lia. Qed.
+
+  Lemma ainsert_aset : forall (A : Type) (cs : list A) i l r, i < length cs ->
+    ainsert (aset cs i l) (i + 1) r = firstn i cs ++ l :: r :: skipn (S i) cs.
+  Proof.
+    intros A cs i l r H. unfold ainsert. replace (i + 1) with (S i) by lia.
+    rewrite skipn_aset by lia. unfold aset.
+    rewrite firstn_app, firstn_firstn, firstn_length.
+    replace (Nat.min (S i) i) with i by lia. replace (S i - Nat.min i (length cs)) with 1 by lia.
+    cbn [firstn]. rewrite <- app_assoc. reflexivity.
+  Qed.
+
+  Lemma wfn_in_vals_elements : forall h (n : node) v, wfn L I h n -> In v (vals n) -> In v (elements n).
+  Proof.
+    intros h [vs|vs cs] v Hw Hv; cbn [vals] in Hv; [exact Hv|].
+    destruct h as [|h]; [contradiction|]. destruct Hw as (_ & Hl & _).
+    apply (in_vals_elements _ rank dflt); assumption.
+  Qed.
+
+  Lemma split_child_spec : forall h vs cs i l m r,
+    kids_ok L I (S h) (Inode vs cs) -> i <= length vs ->
+    n_vals (nth i cs dnode) = max_vals L I (nth i cs dnode) ->
+    split_node dflt L I (nth i cs dnode) = (l, m, r) ->
+    let cs' := firstn i cs ++ l :: r :: skipn (S i) cs in
+    split_child dflt L I (Inode vs cs) i = Inode (ainsert vs i m) cs' /\
+    elements (Inode (ainsert vs i m) cs') = elements (Inode vs cs) /\
+    kids_ok L I (S h) (Inode (ainsert vs i m) cs') /\
+    nth i cs' dnode = l /\ nth (i + 1) cs' dnode = r /\
+    n_vals l < max_vals L I l /\ n_vals r < max_vals L I r /\
+    In m (elements (Inode vs cs)).
+  Proof.
+    intros h vs cs i l m r Hk Hi Hfull E cs'.
+    pose proof (kids_ok_child _ rank dflt L I HI HI3 h vs cs i Hk Hi) as Hc.
+    destruct Hk as (Hh & Hl & Hfa).
+    destruct (split_node_spec h _ l m r (wfn_kids_ok _ rank dflt L I HI HI3 _ _ Hc) Hfull E)
+      as (Hel & Hwl & Hwr & Hll & Hlr & Hnl & Hnr & Hm).
+    pose proof (max_vals_ge3 (nth i cs dnode)) as H3.
+    destruct (leaf_eq_vals _ _ Hll) as [Hml _]. destruct (leaf_eq_vals _ _ Hlr) as [Hmr _].
+    assert (Hfi : length (firstn i cs) = i) by (rewrite firstn_length; lia).
+    repeat split.
+    - unfold split_child. rewrite E. rewrite ainsert_aset by lia. reflexivity.
+    - rewrite (elements_split _ rank dflt vs cs i) by lia. rewrite Hel.
+      unfold pre, post, cs', ainsert. cbn [elements]. rewrite map_app. cbn [map].
+      rewrite (inter_app _ rank dflt) by (rewrite map_length, !firstn_length; lia).
+      f_equal. cbn [inter]. destruct (skipn i vs) as [|v vs'].
+      + rewrite app_nil_r. reflexivity.
+      + rewrite <- app_assoc. reflexivity.
+    - assumption.
+    - unfold cs'. rewrite app_length. cbn [length]. rewrite length_ainsert by lia.
+      rewrite firstn_length, skipn_length. lia.
+    - unfold cs'. apply Forall_app. split; [apply Forall_firstn; assumption|].
+      constructor; [assumption|]. constructor; [assumption|]. apply Forall_skipn. assumption.
+    - unfold cs'. rewrite app_nth2 by lia. rewrite Hfi. replace (i - i) with 0 by lia. reflexivity.
+    - unfold cs'. rewrite app_nth2 by lia. rewrite Hfi. replace (i + 1 - i) with 1 by lia. reflexivity.
+    - lia.
+    - lia.
+    - apply (in_child_elements _ rank dflt vs cs i); try assumption.
+      eapply wfn_in_vals_elements; eassumption.
+  Qed.
+
 End Insert.
